@@ -64,7 +64,7 @@ func c02Order(p *Program, r *Report) {
 			key := s.fn + ":" + e.Method + " " + e.Pattern
 			if e.Method == "GET" && strings.HasPrefix(e.Pattern, "<") && len(e.Handlers) == 1 && e.Handlers[0] == "<closure>" {
 				// frozen exception: unauthenticated liveness probe, returns no data
-				ok := c02HealthHarmless(p)
+				ok := c02HealthHarmless(p, e)
 				r.Check(ok, "R-C02-1", key+":health", p.Pos(e.Pos), "exempt: health probe returns only a status", "the route registered ahead of authentication is not a bare status probe")
 				continue
 			}
@@ -91,22 +91,39 @@ func c02Order(p *Program, r *Report) {
 	}
 }
 
-// the health closure only calls ctx.SendStatus
-func c02HealthHarmless(p *Program) bool {
-	f := p.Func("s3api.New")
-	for _, a := range f.AnonFuncs {
-		if !isFiberHandlerSig(a.Signature) {
-			continue
+// the health closure only calls ctx.SendStatus (the closure is found by the position of the function literal
+// in the registration, wherever the registration was moved to)
+func c02HealthHarmless(p *Program, e regEntry) bool {
+	if len(e.Closures) != 1 {
+		return false
+	}
+	var visit func(f *ssa.Function) *ssa.Function
+	visit = func(f *ssa.Function) *ssa.Function {
+		if f.Pos() == e.Closures[0] {
+			return f
 		}
-		for _, c := range callsIn(a) {
-			n := calleeName(c)
-			if n != fiberCtx+".SendStatus" {
-				return false
+		for _, a := range f.AnonFuncs {
+			if g := visit(a); g != nil {
+				return g
 			}
 		}
-		return true
+		return nil
 	}
-	return false
+	var cl *ssa.Function
+	for _, f := range pkgFuncs(p.SSA, p.SSAPkg["s3api"]) {
+		if g := visit(f); g != nil {
+			cl = g
+		}
+	}
+	if cl == nil || !isFiberHandlerSig(cl.Signature) {
+		return false
+	}
+	for _, c := range callsIn(cl) {
+		if calleeName(c) != fiberCtx+".SendStatus" {
+			return false
+		}
+	}
+	return true
 }
 
 // ---- R-C02-2 ---------------------------------------------------------------------
@@ -126,19 +143,23 @@ func bigCalls(f *ssa.Function) []condEdge {
 	return out
 }
 
-// wrapCalls: calls to wrapBodyReader in f whose closure returns the result of one of ctors.
+// wrapCallsWith: where f installs a reader built by one of ctors as the request's body reader. The contract
+// between the middlewares and the handlers is the context local "body-reader": an install is a
+// ctx.Locals("body-reader", v) whose v comes from the constructor. Helpers around it (a wrapper taking a callback,
+// a setter) are inlined by the normaliser, callbacks included, so the shape of the plumbing does not matter.
 func wrapCallsWith(f *ssa.Function, ctors ...string) []ssa.CallInstruction {
 	var out []ssa.CallInstruction
-	for _, c := range callsTo(f, mwPkg+".wrapBodyReader") {
+	for _, c := range callsTo(f, fiberCtx+".Locals") {
 		args := callArgs(c)
-		mc, ok := args[1].(*ssa.MakeClosure)
-		if !ok {
+		if len(args) < 2 {
 			continue
 		}
-		cl := mc.Fn.(*ssa.Function)
+		if k, ok := constString(args[0]); !ok || k != "body-reader" {
+			continue
+		}
 		good := false
-		for _, ret := range returnsOf(cl) {
-			for _, rt := range Origins(ret.Results[0], nil) {
+		for _, v := range args[1:] {
+			for _, rt := range Origins(v, nil) {
 				if rt.Kind == "call" && contains(ctors, rt.Desc) {
 					good = true
 				}
@@ -328,14 +349,15 @@ func c02Middleware(p *Program, r *Report) {
 	}
 }
 
-// c02ClosureErr: ctor is called inside a closure of f; its error must reach a nil test in f
-// whose non-nil edge reaches no ctx.Next().
+// c02ClosureErr: ctor is called in f or inside a closure of f (the callback of a body-reader wrapper); its error
+// must reach a nil test in f whose non-nil edge reaches no ctx.Next(): directly, or through the local variable
+// the closure stores it into.
 func c02ClosureErr(p *Program, r *Report, f *ssa.Function, ctor string) {
 	key := fnName(f) + "/" + ctor + ":error-tested"
 	found := false
-	// the closures this function creates (its own literals and those of helpers inlined into it)
-	var cls []*ssa.Function
-	seenCl := map[*ssa.Function]bool{}
+	// f itself and the closures it creates (its own literals and those of helpers inlined into it)
+	cls := []*ssa.Function{f}
+	seenCl := map[*ssa.Function]bool{f: true}
 	for _, b := range f.Blocks {
 		for _, in := range b.Instrs {
 			if mc, isMC := in.(*ssa.MakeClosure); isMC {
@@ -346,66 +368,77 @@ func c02ClosureErr(p *Program, r *Report, f *ssa.Function, ctor string) {
 			}
 		}
 	}
+	nexts := callsTo(f, fiberCtx+".Next")
+	refuses := func(v ssa.Value) bool {
+		_, nonNil := nilTestEdges(v)
+		if len(nonNil) == 0 {
+			return false
+		}
+		for _, e := range nonNil {
+			reach := reachableFromEdge(f, e, nil)
+			for _, nx := range nexts {
+				if reach[nx.Block()] {
+					return false
+				}
+			}
+		}
+		return true
+	}
 	for _, cl := range cls {
 		for _, c := range callsTo(cl, ctor) {
 			found = true
 			ok := false
 			for _, ev := range errValues(c) {
+				if cl == f {
+					for _, a := range aliasesOf(ev) {
+						if refuses(a) {
+							ok = true
+						}
+					}
+				}
+				if ev.Referrers() == nil {
+					continue
+				}
 				for _, ref := range *ev.Referrers() {
 					st, isSt := ref.(*ssa.Store)
 					if !isSt || st.Val != ev {
 						continue
 					}
-					fv, isFV := st.Addr.(*ssa.FreeVar)
-					if !isFV {
-						continue
-					}
-					// the captured cell in f
+					// the cell in f: a local of f, or the variable the closure captured
 					var cell ssa.Value
-					for _, b := range f.Blocks {
-						for _, in := range b.Instrs {
-							if mc, isMC := in.(*ssa.MakeClosure); isMC && mc.Fn == cl {
-								for i, fvv := range cl.FreeVars {
-									if fvv == fv {
-										cell = mc.Bindings[i]
+					switch ad := st.Addr.(type) {
+					case *ssa.Alloc:
+						if cl == f {
+							cell = ad
+						}
+					case *ssa.FreeVar:
+						for _, b := range f.Blocks {
+							for _, in := range b.Instrs {
+								if mc, isMC := in.(*ssa.MakeClosure); isMC && mc.Fn == cl {
+									for i, fvv := range cl.FreeVars {
+										if fvv == ad {
+											cell = mc.Bindings[i]
+										}
 									}
 								}
 							}
 						}
 					}
-					if cell == nil {
+					if cell == nil || cell.Referrers() == nil {
 						continue
 					}
-					// loads of the cell in f compared with nil; non-nil edge reaches no Next
 					for _, cref := range *cell.Referrers() {
-						ld, isLd := cref.(*ssa.UnOp)
-						if !isLd || ld.Op != token.MUL {
-							continue
-						}
-						_, nonNil := nilTestEdges(ld)
-						if len(nonNil) == 0 {
-							continue
-						}
-						good := true
-						for _, e := range nonNil {
-							reach := reachableFromEdge(f, e, nil)
-							for _, nx := range callsTo(f, fiberCtx+".Next") {
-								if reach[nx.Block()] {
-									good = false
-								}
-							}
-						}
-						if good {
+						if ld, isLd := cref.(*ssa.UnOp); isLd && ld.Op == token.MUL && refuses(ld) {
 							ok = true
 						}
 					}
 				}
 			}
-			r.Check(ok, "R-C02-2", key, p.Pos(c.Pos()), "construction error is stored to the captured err and tested by the middleware", "the error of "+ctor+" built inside the body-reader closure is never tested by the middleware (shadowed or dropped): a nil reader can be installed and the request proceeds unverified")
+			r.Check(ok, "R-C02-2", key, p.Pos(c.Pos()), "construction error is tested by the middleware", "the error of "+ctor+" built for the body reader is never tested by the middleware (shadowed or dropped): a nil reader can be installed and the request proceeds unverified")
 		}
 	}
 	if !found {
-		r.Viol("R-C02-2", key, p.Pos(f.Pos()), "no call to "+ctor+" inside a body-reader closure of "+fnName(f))
+		r.Viol("R-C02-2", key, p.Pos(f.Pos()), "no call to "+ctor+" in "+fnName(f)+" or its body-reader closures")
 	}
 }
 
